@@ -40,7 +40,14 @@ META = dict(
                "(broker.register_task / @broker.task again at run time; also a name that was unknown when its first message "
                "arrived): 2-4 functions under one name, mostly of the other kind (sync <-> async) than their predecessor, with "
                "their own body / outcome / durations / timeout label / parameter list, the predecessor possibly still running - "
-               "every message must store the result of the function registered under its name when it was delivered.",
+               "every message must store the result of the function registered under its name when it was delivered. "
+               "In a seventh of the cases the callable REGISTERED as the task is not the plain function but something built "
+               "around it: one or two functools.wraps decorator layers, a decorator without wraps, an async wrapper around a "
+               "sync function, functools.partial (+ update_wrapper), callable objects (async ones marked with "
+               "inspect.markcoroutinefunction), a function carrying __wrapped__ - layers that catch the inner exception and "
+               "return a fallback, validate the value and raise, post-process the value, convert the exception, or take time "
+               "before the call; outcome, duration and kind of the scenario are those of the registered callable, and the stored "
+               "result must be ITS outcome, not the innermost function's.",
     level_note="Known finding sync_generator_exit (D10): a SYNC function raising GeneratorExit - the theorems exclude exactly "
                "that region (wf_recv: sync_genexit c = false) and C07_one_save_refuted_sync_genexit exhibits it. The statement "
                "claims timeout enforcement for async functions only; for sync functions wait_for gives up but the thread "
